@@ -1,6 +1,24 @@
 // ---- expression semantics (DESIGN section 4), written from C01/C04/C08/C10/C17 ----
 // eval_rel is a relation because `random` is not a function of the environment.
 
+/// trigger carrier for the existential witnesses below (a recursive call cannot serve as a trigger:
+/// Verus indexes it by fuel). Always true.
+spec fn wit(r: Result<i64, ExprError>) -> bool { true }
+
+/// every function call names a table entry with the right arity (established by the parser, C12)
+spec fn expr_wf(e: Expr) -> bool
+    decreases e
+{
+    match e {
+        Expr::Number(_) => true,
+        Expr::Variable(_) => true,
+        Expr::UnaryOp { op, expr } => expr_wf(*expr),
+        Expr::BinOp { op, left, right } => expr_wf(*left) && expr_wf(*right),
+        Expr::Func { name, args } => func_table_spec(name@) == Some(args@.len() as usize)
+            && forall|i: int| 0 <= i < args@.len() ==> expr_wf(#[trigger] args@[i]),
+    }
+}
+
 spec fn eval_rel(e: Expr, ctx: &EvalContext, r: Result<i64, ExprError>) -> bool
     decreases e
 {
@@ -12,13 +30,13 @@ spec fn eval_rel(e: Expr, ctx: &EvalContext, r: Result<i64, ExprError>) -> bool
             Some(OutputValue::Value(n)) => r == Ok::<i64, ExprError>(n),
             _ => r is Err,
         },
-        Expr::UnaryOp { op, expr } => exists|r1: Result<i64, ExprError>| #[trigger] eval_rel(*expr, ctx, r1) && match r1 {
+        Expr::UnaryOp { op, expr } => exists|r1: Result<i64, ExprError>| #[trigger] wit(r1) && eval_rel(*expr, ctx, r1) && match r1 {
             Ok(v) => r == Ok::<i64, ExprError>(unop_spec(op, v)),
             Err(_) => r is Err,
         },
-        Expr::BinOp { op, left, right } => exists|rl: Result<i64, ExprError>| #[trigger] eval_rel(*left, ctx, rl) && match rl {
+        Expr::BinOp { op, left, right } => exists|rl: Result<i64, ExprError>| #[trigger] wit(rl) && eval_rel(*left, ctx, rl) && match rl {
             Err(_) => r is Err,
-            Ok(a) => exists|rr: Result<i64, ExprError>| #[trigger] eval_rel(*right, ctx, rr) && match rr {
+            Ok(a) => exists|rr: Result<i64, ExprError>| #[trigger] wit(rr) && eval_rel(*right, ctx, rr) && match rr {
                 Err(_) => r is Err,
                 Ok(b) => match binop_spec(op, a, b) {
                     Some(v) => r == Ok::<i64, ExprError>(v),
@@ -29,12 +47,12 @@ spec fn eval_rel(e: Expr, ctx: &EvalContext, r: Result<i64, ExprError>) -> bool
         Expr::Func { name, args } => {
             if name@ == "ite"@ && args@.len() == 3 {
                 // C08: only the selected branch is evaluated and returned
-                exists|rc: Result<i64, ExprError>| #[trigger] eval_rel(args@[0], ctx, rc) && match rc {
+                exists|rc: Result<i64, ExprError>| #[trigger] wit(rc) && eval_rel(args@[0], ctx, rc) && match rc {
                     Err(_) => r is Err,
                     Ok(c) => if c != 0 { eval_rel(args@[1], ctx, r) } else { eval_rel(args@[2], ctx, r) },
                 }
             } else if name@ == "random"@ && args@.len() == 1 {
-                exists|rm: Result<i64, ExprError>| #[trigger] eval_rel(args@[0], ctx, rm) && match rm {
+                exists|rm: Result<i64, ExprError>| #[trigger] wit(rm) && eval_rel(args@[0], ctx, rm) && match rm {
                     Err(_) => r is Err,
                     // C17: 0 <= r < n for n >= 2.  n < 2 (possibly empty range): C10 - an error item or a value
                     Ok(n) => n >= 2 ==> (r is Ok && 0 <= r->Ok_0 < n),
@@ -53,14 +71,14 @@ spec fn func_table_spec(name: Seq<char>) -> Option<usize> {
 }
 
 spec fn ite_rel(args: Seq<Expr>, ctx: &EvalContext, r: Result<i64, ExprError>) -> bool {
-    exists|rc: Result<i64, ExprError>| #[trigger] eval_rel(args[0], ctx, rc) && match rc {
+    exists|rc: Result<i64, ExprError>| #[trigger] wit(rc) && eval_rel(args[0], ctx, rc) && match rc {
         Err(_) => r is Err,
         Ok(c) => if c != 0 { eval_rel(args[1], ctx, r) } else { eval_rel(args[2], ctx, r) },
     }
 }
 
 spec fn random_rel(args: Seq<Expr>, ctx: &EvalContext, r: Result<i64, ExprError>) -> bool {
-    exists|rm: Result<i64, ExprError>| #[trigger] eval_rel(args[0], ctx, rm) && match rm {
+    exists|rm: Result<i64, ExprError>| #[trigger] wit(rm) && eval_rel(args[0], ctx, rm) && match rm {
         Err(_) => r is Err,
         Ok(n) => n >= 2 ==> (r is Ok && 0 <= r->Ok_0 < n),
     }
@@ -69,4 +87,12 @@ spec fn random_rel(args: Seq<Expr>, ctx: &EvalContext, r: Result<i64, ExprError>
 /// what calling the table entry `name` with `args` must establish
 spec fn func_post(name: Seq<char>, args: Seq<Expr>, ctx: &EvalContext, r: Result<i64, ExprError>) -> bool {
     if name == "ite"@ { ite_rel(args, ctx, r) } else if name == "random"@ { random_rel(args, ctx, r) } else { r is Err }
+}
+
+proof fn lemma_func_names()
+    ensures "ite"@ != "random"@, "ite"@ != "signExt"@, "random"@ != "signExt"@,
+        func_table_spec("ite"@) == Some(3usize), func_table_spec("random"@) == Some(1usize), func_table_spec("signExt"@) == Some(2usize),
+{
+    reveal_strlit("ite"); reveal_strlit("random"); reveal_strlit("signExt");
+    assert("ite"@.len() == 3); assert("random"@.len() == 6); assert("signExt"@.len() == 7);
 }
